@@ -490,6 +490,9 @@ func (w *SumWorld) Consistent(n1 int64, h1 tlog.Hash, n2 int64, h2 tlog.Hash) bo
 	if n1 == n2 && h1 == h2 {
 		return true
 	}
+	if n1 == 0 && h1 == RfcEmpty() {
+		return true // the empty tree is a prefix of every tree, also of one with a lying hash
+	}
 	for _, s := range w.SidesOf(n1, h1) {
 		for _, s2 := range w.SidesOf(n2, h2) {
 			if s == s2 {
